@@ -307,6 +307,7 @@ type c11Side struct {
 	PeerName string   `json:"peer_name"`
 	MSHash   string   `json:"ms_hash"` // DTLS 1.2: hash of the master secret in force (in-package)
 	Hidden   bool     `json:"hidden"`  // class sent: the alert went out protected (not readable on the wire)
+	ErrAlert int      `json:"err_alert"` // class err: the alert this side's error carries (it was raised, not seen by the peer); -1 none
 }
 
 // c11Steer describes what an on-path party or a rogue server does to one association (all zero = nothing).
@@ -319,7 +320,21 @@ type c11Steer struct {
 	Twice        bool  `json:"twice"`          // ... and the rewritten datagram forwarded twice (second copy: next record number)
 	SHALPN       int   `json:"sh_alpn"`        // rogue server: the ServerHello names protocol "p<k>" (0 = untouched)
 	SHSuite      int   `json:"sh_suite"`       // ServerHello hook: the ServerHello names this cipher suite (0 = untouched)
+	SHSessionID  bool  `json:"sh_sessionid"`   // ServerHello hook: the ServerHello carries another session id (32 x 0xAB)
+	Refuse       int   `json:"refuse"`         // the CLIENT refuses the server: 1 VerifyPeerCertificate fails, 2 VerifyConnection fails
 	Applied      int   `json:"applied"`        // how many datagrams were rewritten
+}
+
+// c11Next: the connection made after a hooked full handshake, with the same session stores and no hook.
+type c11Next struct {
+	Run      bool   `json:"run"`
+	OK       bool   `json:"ok"`
+	CHSidLen int    `json:"ch_sidlen"`
+	SHSidLen int    `json:"sh_sidlen"`
+	SHDSeen  bool   `json:"shd_seen"`
+	Resumed  bool   `json:"resumed"`
+	ClientID string `json:"client_sessid"`
+	ServerID string `json:"server_sessid"`
 }
 
 // c11Seed: the earlier association that left the sessions in the stores, when it used other option sets.
@@ -367,6 +382,7 @@ type c11Case struct {
 	Storm   bool       `json:"storm"` // more than 3000 datagrams: the run was cut off
 	Steer   c11Steer   `json:"steer"`
 	Seed    c11Seed    `json:"seed"`
+	Next    c11Next    `json:"next"`
 }
 
 // c11Opt: what a run does besides pairing the two option sets.
@@ -986,6 +1002,16 @@ func runC11Opt(t *testing.T, id int, gen string, c, s c11Cfg, resume bool, mask 
 			x.side.Class, x.side.Alert, x.side.Level, x.side.Hidden = "sent", int(a.Description), int(a.Level), true
 		}
 	}
+	for _, x := range []struct {
+		p    *vPeer
+		side *c11Side
+	}{{lab.Client, &res.Client}, {lab.Server, &res.Server}} {
+		x.side.ErrAlert = -1
+		var a *alert.Alert
+		if x.side.Class == "err" && errors.As(x.p.Err, &a) {
+			x.side.ErrAlert = int(a.Description)
+		}
+	}
 	if lab.established() {
 		lab.Client.startReader()
 		lab.Server.startReader()
@@ -1004,6 +1030,26 @@ func runC11Opt(t *testing.T, id int, gen string, c, s c11Cfg, resume bool, mask 
 		}
 		res.DataOK = e1 == nil && e2 == nil && e3 == nil && e4 == nil &&
 			fmt.Sprint(res.Server.Reads) == "[c2s-one c2s-two]" && fmt.Sprint(res.Client.Reads) == "[s2c-one s2c-two]"
+	}
+	if lab.established() && opt.Steer.SHSessionID && cs != nil && ss != nil {
+		// the session the hooked handshake left in the two stores must be one both sides find again: the next
+		// connection (same stores, no hook) resumes
+		tmp := c11Case{C: c, S: s}
+		lab1 := c11NewLab(c.build(true, cs), s.build(false, ss), &tmp)
+		if lab1 != nil {
+			res.Next.Run = true
+			c11Start(lab1)
+			w1 := newC11Wire(&tmp)
+			c11Pump(lab1, nil, 150*time.Second, w1.feed, lab1.bothDone)
+			var a, b c11Side
+			c11Observe(lab1.Client, &a)
+			c11Observe(lab1.Server, &b)
+			res.Next.OK = lab1.established()
+			res.Next.CHSidLen, res.Next.SHSidLen, res.Next.SHDSeen = tmp.CH.SessIDLen, tmp.SH.SessIDLen, tmp.SHDSeen
+			res.Next.Resumed = res.Next.OK && tmp.CH.SessIDLen > 0 && tmp.SH.SessIDLen > 0 && !tmp.SHDSeen
+			res.Next.ClientID, res.Next.ServerID = a.SessID, b.SessID
+			lab1.close()
+		}
 	}
 
 	return res
